@@ -406,6 +406,9 @@ func (f Field) Init(def, rep int) string {
 			if fld.Primitive() {
 				if f.NthChild == 0 && fld.Parent.Optional() && !fld.Parent.Repeated() {
 					right = fmt.Sprintf(right, fmt.Sprintf("%s: p%s(vals[0])%%s", fld.Name, fld.Type))
+				} else if fld.Parent.RepetitionType == Repeated && j > 0 {
+					// inside the composite literal of the list element
+					right = fmt.Sprintf(right, fmt.Sprintf("%s: p%s(vals[nVals])%%s", fld.Name, fld.Type))
 				} else if fld.Parent.RepetitionType == Repeated {
 					right = fmt.Sprintf(right, fmt.Sprintf("p%s(vals[nVals])%%s", fld.Type))
 				} else if fld.Parent.Repeated() && f.NthChild == 0 {
@@ -433,6 +436,10 @@ func (f Field) Init(def, rep int) string {
 				}
 			} else {
 				if rep > 0 && reps == rep || (fld.MaxRepForDef(def) == rep && !strings.Contains(right, "append(")) {
+					right = fmt.Sprintf(right, fmt.Sprintf("append(x%s, %s{%%s})", left, fld.Type))
+				} else if rep == 0 && j == 0 && def == maxDef && !f.RepCases(def).UseRepCase(f, def) {
+					// no switch on rep surrounds this statement, so it runs for
+					// every element of the list, not only for the first one
 					right = fmt.Sprintf(right, fmt.Sprintf("append(x%s, %s{%%s})", left, fld.Type))
 				} else if rep == 0 && j == 0 && !f.rightComplete(def, defs, maxDef) {
 					right = fmt.Sprintf(right, fmt.Sprintf("[]%s{{%%s}}", fld.Type))
